@@ -164,8 +164,9 @@ CLAIMS = {
               'returns an earlier full pack). TIE: extracted c13_all_b accepts every step of 23 repack-free implementation traces; PickPack.pick == '
               '_get_pack_id_to_write_to on planted pack files; repack-free histories (targets 50/300/4GiB, reopened and parallel handles) compare '
               'every pack before/after every step and check consecutive ids and "all but the last pack reached the target and are never written '
-              'again". PARTIAL: pack roll-over inside one call (the per-object consultation of _get_pack_id_to_write_to) is decided by the '
-              'histories and the pick correspondence, not by a program theorem.'),
+              'again". C13_call_keeps_layout (pick followed by the fill order Layout.segs keeps ids consecutive, all but the last pack full, '
+              'and the cached id behind full packs - for a whole call over any number of packs). PARTIAL: the layout theorem is about pack sizes '
+              '(pick + segs, each tied to the code by correspondence); it is not composed with the event programs into one statement.'),
         design='4/C13'),
 
     'C14': dict(
